@@ -92,7 +92,7 @@ IDENTS = ["x", "y", "z", "a", "b", "c", "foo", "bar", "m1", "val2", "my-var", "A
 FUNS = ["f", "g", "math/sin", "stats/sum/row", "combinatorics/n-choose-k", "foo"]
 FIELDS = ["a", "b", "x", "y", "name", "k1"]
 KINDS = ["u8", "i8", "u64", "i64", "f32", "f64", "string", "bool"]
-NUMS = ["0", "1", "2", "7", "42", "100", "3.14", "0.5", "10.25", "0xFF", "0b101", "0o17", "0d19", "1/2", "22/7",
+NUMS = ["0", "1", "2", "7", "42", "100", "3.14", "0.5", "10.25", "0xFF", "0b101", "0o17", "0d19", "1/2", "22/7", "1e3", "1.5e3", "2.5e0.5",
         "5u8", "12u64", "1+2i", "5i", "1.5+2.5i"]
 STRS = ["", "a", "hello", "Hello World", "a b  c", "x=1;", "[1 2]", "it's", "ünï", "100%"]
 ATOMS = ["a", "red", "ok", "Foo", "my-atom"]
@@ -651,6 +651,8 @@ def gen_items(rng):
     add("comment-slash", "// %s\n%s := %s" % ("slash comment", V(), E()))
     add("comment-trailing", "%s := %s -- %s" % (V(), E(), "trailing words"))
     add("sci-literal", "%s := %s" % (V(), rng.choice(["1e3", "1.5e3", "2.5E-3", "1.0e+10", "6.02e23<f64>"])))
+    add("sci-literal-fraction", "%s := %s" % (V(), rng.choice(["1e-2.5", "2.5E-0.5", "1e2.5", "2.5E+0.5", "7.25e-10.75"])))
+    add("sci-literal-in-formula", "%s := [%s %s] * 2" % (V(), rng.choice(["1e-1.5", "3e-2", "1.5e-3"]), rng.choice(["2.5E-0.5", "1e3", "4e-0.25"])))
     add("complex-neg", "%s := %s" % (V(), rng.choice(["1-2i", "3.5-0.5i", "-2i"])))
     add("float-leading-dot", "%s := .5" % V())
     add("string-escape", '%s := "%s"' % (V(), rng.choice(["a\\nb", "q: \\\"x\\\"", "tab\\tx", "back\\\\slash"])))
